@@ -279,9 +279,10 @@ struct P_C03
         if (eq) { account("impl==spec"); return Verdict::pass(); }
         // confirm the distinguishing string on the real matcher and on the second reference
         bool spec_acc = rx::dfa_run(spec, w) == 0;
-        bool deriv_acc = rx::Deriv(p.ast).match(w);
+        int deriv3 = rx::Deriv(p.ast).match3(w);
         bool impl_acc = real_match(w);
-        if (spec_acc != deriv_acc) { st.count("harness-disagreement"); return Verdict::discard("harness-disagreement"); }
+        if (deriv3 < 0) st.count("second-opinion-gave-up(node budget)");
+        else if (spec_acc != (deriv3 == 1)) { st.count("harness-disagreement"); return Verdict::discard("harness-disagreement"); }
         if (impl_acc == spec_acc) { st.count("witness-not-confirmed"); return Verdict::discard("witness-not-confirmed"); }
         det.set("witness_hex", vj::hex(w)); det.set("witness", w); det.set("spec_accepts", spec_acc); det.set("impl_accepts", impl_acc);
         // three-way classification against the model of the known construction defect
